@@ -1,7 +1,7 @@
 (* C03 -- unmount removes all of a layer's mounts, deepest first, and nothing else: the model's
    own step satisfies the property predicate.  Statements only. *)
 From LC Require Import Lib.Bytes Model.MountInfo Model.FsTree Model.Kernel Model.Layers
-  Proofs.KernelP Proofs.C03P Cases.LC Cases.C03.
+  Proofs.KernelP Proofs.ForestP Proofs.C03P Proofs.C03AllP Cases.LC Cases.C03.
 Import LC LCS.
 
 (* (a) umount with neither a layer nor -all fails, changes nothing, issues no call *)
@@ -17,3 +17,41 @@ Theorem C03_single : forall c w e um a r, plain_env e = true ->
   C03.step_spec c w (view_of_model c w e (CUmount (a :: r) false) um) = true.
 Proof. exact C03_single_proof. Qed.
 Print Assumptions C03_single.
+
+(* (c) umount -all: legal calls inside the build roots, frame, descendants first, and the
+   ROk / RFail clauses -- under the decidable hypotheses collected in [C03_all_hyp]
+   (docs/proofs-C03-C04.md lists them with the counterexamples that make each necessary) *)
+Theorem C03_all_partial : forall c w e um, plain_env e = true -> C03AllP.C03_all_hyp c w = true ->
+  C03.step_spec c w (view_of_model c w e (CUmount [] true) um) = true.
+Proof. exact C03AllP.C03_all_proof. Qed.
+Print Assumptions C03_all_partial.
+
+(* the reversed normalised order visits descendants before ancestors *)
+Theorem C03_order_descendants_first : forall m o, NoDup (map l_name m) -> normalize_order m = Some o ->
+  Sorted.StronglySorted (ForestP.not_anc m) (rev o).
+Proof. exact ForestP.order_descendants_first. Qed.
+Print Assumptions C03_order_descendants_first.
+
+(* the kernel-level core: a descending list that is, as a multiset, the mountpoints at or below
+   d is unmounted call by call, every call legal, only lines at or below d disappear, nothing is
+   left on success, and with well-formed parent ids no call fails *)
+Theorem C03_umount_sequence_core : forall d region, good_root d = true ->
+  (forall t, at_or_below d t = true -> region t = true) ->
+  forall ts ks, desc ts ->
+  Permutation.Permutation ts (filter (at_or_below d) (map k_mp (ks_tab ks))) ->
+  NoDup (kids (ks_tab ks)) ->
+  exists ok ks' iss, ku_seq ks ts = (ok, ks', iss)
+    /\ legal_seq (um_legal region) ks iss = true
+    /\ dels (fun k => at_or_below d (k_mp k)) (ks_tab ks) (ks_tab ks')
+    /\ ks_nextid ks' = ks_nextid ks /\ ks_nextdev ks' = ks_nextdev ks
+    /\ (ok = true -> iss = ts /\ forall m, In m (ks_tab ks') -> at_or_below d (k_mp m) = false)
+    /\ (ok = false -> iss <> [])
+    /\ (pwf (ks_tab ks) = true -> ok = true).
+Proof. exact ku_seq_core. Qed.
+Print Assumptions C03_umount_sequence_core.
+
+(* all forms of the command *)
+Theorem C03_model_partial : forall cfg w e um n all, plain_env e = true -> C03AllP.C03_hyp cfg w n all = true ->
+  C03.step_spec cfg w (view_of_model cfg w e (CUmount n all) um) = true.
+Proof. exact C03AllP.C03_model_proof. Qed.
+Print Assumptions C03_model_partial.
